@@ -56,6 +56,17 @@ def as_str(v):
         return as_str(v.items[0])
     if isinstance(v, BoxV):
         return as_str(v.items[0])
+    if isinstance(v, (Arr, VecV)) and all(isinstance(b, BV) and b.ty == 'u8' for b in v.items):
+        # a byte slice handed to something that takes AsRef<[u8]> (as_bytes() of a string, a sub-slice of it)
+        if all(isinstance(b.v, int) for b in v.items):
+            return bytes(b.v for b in v.items)
+        return S.SStr([b.v for b in v.items], len(v.items), 'bytes')
+    if isinstance(v, SliceRef):
+        items = v.cont.items[v.start:v.start + v.length] if isinstance(v.length, int) else None
+        if items is not None and all(isinstance(b, BV) and b.ty == 'u8' for b in items):
+            if all(isinstance(b.v, int) for b in items):
+                return bytes(b.v for b in items)
+            return S.SStr([b.v for b in items], len(items), 'bytes')
     raise Unsupported('expected a string, got %r' % (v,))
 
 
